@@ -119,6 +119,9 @@ impl Prop for C19 {
     fn id(&self) -> &'static str {
         "C19"
     }
+    fn fuzz_target(&self) -> Option<&'static str> {
+        Some("fz_lines")
+    }
     fn stream_len(&self, tier: Tier) -> usize {
         tier.pick(80, 200)
     }
